@@ -8,7 +8,7 @@ CHECKS = {
  "C10": dict(
    engine="driver",
    technique="TLA+ spec SolveCodes.tla (documented ranges, predicates, run as a state machine); every code -200..999 is run through a real driver with a scripted backend and each run is trace-validated by TLC; MCSolveCodes design check",
-   text="Complete enumeration of the status-code space (1200 codes; all 8 primal/dual/objective answer shapes in the thorough tier, boundary codes + sample in quick) executed end-to-end through BackendApp/StdBackend/.sol writer; TLC validates each run (library predicates, IIS/ray steps taken, objective shown, code written to .sol, -! table) against the specification. Also: every code with two objectives under obj:multi=1 (native multi-objective backend), and codes 2..999 delivered by exception (StdBackend::Abort); and the further solutions written under sol:stub by a MULTISOL backend (each <stub>N.sol readable and carrying the reported code).",
+   text="Complete enumeration of the status-code space (1200 codes; all 8 primal/dual/objective answer shapes in the thorough tier, boundary codes + sample in quick) executed end-to-end through BackendApp/StdBackend/.sol writer; TLC validates each run (library predicates, IIS/ray steps taken, objective shown, code written to .sol, -! table incl. the place of driver-specific codes registered at the first / last code of a class) against the specification. Also: every code with two objectives under obj:multi=1 (native multi-objective backend), and codes 2..999 delivered by exception (StdBackend::Abort); and the further solutions written under sol:stub by a MULTISOL backend (each <stub>N.sol readable and carrying the reported code).",
    note="Trusts the scripted backend to behave like a solver driver (it only calls SetStatus / Abort and returns the scripted vectors), the strict .sol parser in tools/nlgen.py, TLC.",
    design="5/C10"),
  "C17": dict(
